@@ -105,7 +105,7 @@ def oracle_hist(case, obs):
             epoch += 1
             continue
         if h[0] == "mbr":
-            key, what, ans = (st["k"], core.frac(h[2]), epoch), "mbr", st["val"]
+            key, what, ans = (st["k"], ac.thr_key(h[2]), epoch), "mbr", st["val"]
         elif h[0] == "apply":
             o = h[2]
             if st["new"] is None:
@@ -117,16 +117,16 @@ def oracle_hist(case, obs):
                 return f"{why} (step {n} of a history on shared objects)"
             if o[0] != "refine":
                 continue
-            key, what, ans = (st["k"], core.frac(o[1]), epoch), "refine", not ac.same_cells(st["new"], st["src"])
+            key, what, ans = (st["k"], ac.thr_key(o[1]), epoch), "refine", not ac.same_cells(st["new"], st["src"])
         else:
             continue
         for w0, a0, n0 in said.get(key, []):
             if a0 != ans and (w0, what) != ("refine", "refine"):
                 m, r = (a0, ans) if w0 == "mbr" else (ans, a0)
                 if w0 == what == "mbr":
-                    return (f"must_be_refined({key[1]}) = {a0} at step {n0} and {ans} at step {n} on the same allocation "
+                    return (f"must_be_refined({ac.thr_show(key[1])}) = {a0} at step {n0} and {ans} at step {n} on the same allocation "
                             f"with no change in between")
-                return (f"must_be_refined({key[1]}) = {m} but refining at that threshold "
+                return (f"must_be_refined({ac.thr_show(key[1])}) = {m} but refining at that threshold "
                         f"{'changes' if r else 'does not change'} the allocation (steps {n0} and {n} of a history)")
         said.setdefault(key, []).append((what, ans, n))
     return None
@@ -140,6 +140,7 @@ def oracle(case, obs):
     if case.get("stream") == "decimal":
         # decimal coordinates: decisions are discrete, so consistency must hold exactly; shapes are not judged
         for t, m, ch in zip(case["ths"], obs["mbr"], obs["refine_changes"]):
+            t = ac.thr_show(t)
             if isinstance(ch, str):
                 return f"refine({t}) failed ({ch}) on a valid allocation with decimal coordinates"
             if m != ch:
@@ -150,11 +151,24 @@ def oracle(case, obs):
                 return f"{o[0]} failed ({st.get('err')}) on a valid allocation with decimal coordinates"
         return None
     for t, m, ch in zip(case["ths"], obs["mbr"], obs["refine_changes"]):
+        t = ac.thr_show(t)
         if isinstance(ch, str):
             return f"refine({t}) failed ({ch}) on a valid allocation"
         if m != ch:
             return (f"must_be_refined({t}) = {m} but refining at that threshold "
                     f"{'changes' if ch else 'does not change'} the allocation")
+    for t, lo in zip(case["ths"], obs.get("loop", [])):
+        # the refine-while-needed loop: a round is only made when must_be_refined(t) said True, so it must change the
+        # allocation (otherwise the loop never ends), and it is a threshold refinement like any other
+        for n, (before, after) in enumerate(lo["rounds"]):
+            if isinstance(after, str):
+                return f"refine({ac.thr_show(t)}) failed ({after}) on a valid allocation (round {n + 1} of the refine-while-needed loop)"
+            if ac.same_cells(before, after):
+                return (f"must_be_refined({ac.thr_show(t)}) = True but refining at that threshold does not change the allocation: "
+                        f"the refine-while-needed loop is stuck in round {n + 1}")
+            why = step_exact(["refine", t, case["loop"][0]], before, after, case["eps"])
+            if why:
+                return f"{why} (round {n + 1} of the refine-while-needed loop at {ac.thr_show(t)})"
     for o, st in zip(case["ops"], obs["steps"]):
         before, after = st["before"]["cells"], st["after"]
         if after is None:
@@ -192,7 +206,7 @@ def run(ctx, out, replay=None):
     import random
     from harness.props import c02
     rng = random.Random(f"C12x-{ctx.seed}")
-    cases += c02.gen_cases(rng, max(n - len(cases), 0), ctx.quick())
+    cases += c02.gen_cases(rng, max(n - len(cases), 0), ctx.quick(), extreme=True)
     fr.run_cases(ctx, out, cases, ac.run_any, ac.any_to_coq, oracle, failure_key, HEADER_H,
                  dist_key=ac.any_dist_key, nontrivial=ac.nontrivial, shard=75, shrink=ac.any_shrink)
     out.extra["history_cases"] = sum(1 for c in cases if ac.is_hist(c))
